@@ -1,6 +1,28 @@
-"""Property -> units whose obligations decide it.  A unit is (qualified function name, receiver class or None)."""
+"""Property -> units whose obligations decide it.  A unit is (qualified function name, receiver class or None).
+Obligations whose label carries a property tag (`C07:...`, `C02+C10:...`) count only for those properties;
+untagged obligations of a unit (definedness, types, frames, pre-call, loop obligations) count for every property
+that lists the unit."""
+
+U = lambda q, rc=None: (q, rc)
+
+KERNEL_NEXT_EVENT = [U("Node.decide_next_event"), U("Node.update_next_end_service_with_server"),
+                     U("Node.update_next_end_service_without_server")]
 
 PROPS = {
-    "C08": dict(units=[("FIFO", None), ("LIFO", None), ("SIRO", None), ("Node.choose_next_customer", None)]),
-    "C09": dict(units=[("random_choice", None)]),
+    "C01": dict(units=[U("ExitNode.accept")]),
+    "C02": dict(units=[U("Simulation.find_next_active_node"), U("ArrivalNode.find_next_event_date")] + KERNEL_NEXT_EVENT),
+    "C04": dict(units=[U("Node.find_free_server")]),
+    "C05": dict(units=[U("Node.find_free_server"), U("Node.choose_next_customer")]),
+    "C07": dict(units=[U("Node.block_individual"), U("Node.update_next_end_service_with_server"),
+                       U("Node.update_next_end_service_without_server")]),
+    "C08": dict(units=[U("FIFO"), U("LIFO"), U("SIRO"), U("Node.choose_next_customer")]),
+    "C09": dict(units=[U("random_choice"), U("Node.change_customer_class"), U("Node.find_next_class_change")]),
+    "C10": dict(units=[U("Distribution._sample"), U("ArrivalNode.find_next_event_date")]),
+    "C12": dict(units=[U("Node.decide_next_event"), U("Node.update_next_end_service_without_server")]),
+    "C13": dict(units=[U("Node.decide_next_event")]),
+    "C14": dict(units=[U("Simulation.find_next_active_node"), U("Node.find_next_class_change"), U("Node.all_individuals"),
+                       U("flatten_list"), U("ExitNode.accept")] + KERNEL_NEXT_EVENT),
+    "C16": dict(units=[U("Simulation.find_next_active_node")]),
+    "C17": dict(units=[U("Node.block_individual"), U("Node.change_customer_class")]),
+    "C18": dict(units=[U("Node.block_individual")]),
 }
